@@ -20,6 +20,7 @@ CONSTANTS
   MaxFail = 1
   MaxArm = 1
   MaxReq = 2
+  MaxRestart = 1
   GenDepth = 36
 CONSTRAINT Emit
 CHECK_DEADLOCK FALSE
